@@ -226,6 +226,17 @@ def run_unit(u, repo, tier, seed, relock=False):
             open(lock_path, "w").write("# obligations green on the pinned tree (written by ./check --relock)\n" +
                                        "".join(sorted(funcs)[i] + "\n" for i in range(len(funcs))))
             lock = sorted(funcs)
+    # the per-function breakdown does not cover side queries (by(bit_vector), by(nonlinear_arith), by(compute)):
+    # an error diagnostic located inside a function makes that function's obligation fail as well
+    for q, ds in by.items():
+        if q is not None and any(d["level"] == "error" for d in ds):
+            if q in funcs:
+                funcs[q]["success"] = False
+            else:
+                funcs[q] = {"success": False, "mode": "?", "time_us": 0, "rlimit": 0}
+    if (vr.get("errors") or 0) > 0 and all(v["success"] for v in funcs.values()):
+        res["undecided"].append("verus reported %s error(s) that could not be attributed to an obligation: %s" % (
+            vr.get("errors"), " || ".join(d["block"][:300] for d in diags if d["level"] == "error")[:1200]))
     for oname in sorted(set(funcs) | set(lock)):
         fr = funcs.get(oname)
         o = {"id": oname, "contract": contract_of.get(oname, ""), "source": source_of.get(oname),
@@ -234,10 +245,11 @@ def run_unit(u, repo, tier, seed, relock=False):
             o["status"] = "undecided"
             o["detail"] = "obligation in lock but not generated on this run (item renamed or removed)"
         elif fr["success"]:
+            # a discharged obligation that is not in the lock (a new const / fn) is harmless: it counts as
+            # discharged; only a FAILING unlocked obligation is undecided instead of a violation
             o["status"] = "discharged"
             if oname not in lock:
-                o["status"] = "undecided"
-                o["detail"] = "obligation not in obligations.lock (new or renamed item)"
+                o["unlocked"] = True
         else:
             ds = by.get(oname, [])
             if not ds:
